@@ -10,7 +10,9 @@ EXPLANATION = (
     'interpreter stubbed: `(define x` / ` 1)` / `x` / empty / `(car` / `5)` error / `y` / void — which texts are '
     'submitted, the buffer is cleared after every submission on both outcomes, values go to stdout, errors to '
     'stderr, void and Ok(None) print nothing, one interpreter for the whole session; (last-value) eval returns '
-    'the value of the last form of a submission.')
+    'the value of the last form of a submission. (earlier-forms, last-value) flow table of Interpreter::eval: '
+    'forms before a failing one are evaluated before it is read or tokenized; the value of the last form; a '
+    'scripted line ending in a blank that belongs to a token is submitted untrimmed.')
 NOT_DECIDED = "transcript equality for every line splitting; behaviour of the line editor."
 
 
